@@ -11,9 +11,10 @@ Definition body_region (c : pcT) : bool :=
   | Fin0 | Fin1 | Fin2 | Sv true _ | Fin3 | Fin4 => true
   | _ => false
   end.
-Definition exp_cwd (asy : bool) (c : pcT) : loc :=
-  if body_region c then InDir
-  else match c with CwdCh | PreHk => if asy then Home else InDir | _ => Home end.
+(* between audit_started and cwd_restored user code may have moved the process anywhere *)
+Definition cwd_ok (asy : bool) (c : pcT) (w : loc) : Prop :=
+  if body_region c then True
+  else w = match c with CwdCh | PreHk => if asy then Home else InDir | _ => Home end.
 Definition exp_infos (c : pcT) : nat :=
   match c with
   | Pop1 | Pop2 | Pop3 | Sv _ _ | Pop4 | Pop5 | CwdCh | PreHk | AudSt | BodyIn | BodyOut | OutsOk
@@ -38,7 +39,7 @@ Definition in_finally (c : pcT) : bool :=
 
 Definition local_inv (q : proc) : Prop :=
   (dirty q = false ->
-     infos q = exp_infos (pc q) /\ cwd q = exp_cwd (is_async q) (pc q) /\
+     infos q = exp_infos (pc q) /\ cwd_ok (is_async q) (pc q) (cwd q) /\
      pre_calls q = execs q + ind_pre (pc q) /\ post_calls q + ind_post (pc q) = execs q) /\
   (before_handler (pc q) = true -> r_err q = false /\ raised q = false) /\
   (in_handler (pc q) = true -> r_err q = true) /\
@@ -83,7 +84,7 @@ Section C35.
   Lemma local_inv_lstep p q g a q' g' : lstep p q g a = Some (q', g') -> local_inv q -> local_inv q'.
   Proof.
     intros H (L1 & L2 & L3 & L4 & L6 & L5 & L7 & L8). inv_lstep H. all: fin H.
-    all: unfold local_inv; usepc.
+    all: unfold local_inv, cwd_ok in *; usepc.
     all: repeat match goal with
                 | H : true = true -> _ |- _ => specialize (H eq_refl)
                 | H : ?x = ?x -> _ |- _ => specialize (H eq_refl)
@@ -98,6 +99,7 @@ Section C35.
     all: repeat match goal with H : ?x = _ |- context [if ?x then _ else _] => rewrite H end; try congruence.
     all: try (match goal with H : ?a <> None -> _, H' : ?a <> None |- _ => specialize (H H'); discriminate end).
     all: try (exfalso; auto; fail).
+    all: usepc; auto; try lia; try congruence.
   Qed.
 
   Lemma fs_inv_lstep p q g a q' g' : lstep p q g a = Some (q', g') -> fs_inv q g -> fs_inv q' g'.
@@ -105,6 +107,7 @@ Section C35.
     intros H (F1 & F2 & F3 & F4). inv_lstep H. all: fin H.
     all: unfold fs_inv, the_result in *; usepc.
     all: repeat split; intros; try discriminate; auto.
+    all: usepc; try discriminate; auto.
   Qed.
 
   Definition c35_inv (s : state) : Prop :=
@@ -177,9 +180,10 @@ Section C35.
     intros R q Dq. destruct (c35_reachable _ _ _ R) as [_ [HL HF]].
     destruct (HL p) as (L1 & _ & _ & L4 & _). fold q in L1, L4. destruct (L1 Dq) as (Ei & Ec & _).
     split.
-    - intros Hh. rewrite Ei, Ec. destruct (pc q) as [| | | | | | | | |f i| | | | | | | | | | | | | | | | | | | | | | | | | | | ];
+    - intros Hh. rewrite Ei. unfold cwd_ok in Ec.
+      destruct (pc q) as [| | | | | | | | |f i| | | | | | | | | | | | | | | | | | | | | | | | | | | ];
         cbn in *; try discriminate; auto.
-    - intros Ap E. destruct (HF p Ap) as (F1 & F2 & F3 & _). fold q in F1, F2, F3.
+    - intros Ap E. destruct (HF p Ap) as (F1 & F2 & F3 & _). fold q in F1, F2, F3. unfold cwd_ok in Ec.
       rewrite E in *. cbn in *. rewrite Ei, Ec, (L4 eq_refl). unfold the_result in F2. auto 10.
   Qed.
 
